@@ -224,7 +224,10 @@ def bg_correct(raw, bg, df=None):
     if not (raw.shape == bg.shape == df.shape and list(get_spacing(raw)) == list(get_spacing(bg)) == list(get_spacing(df))):
         raise BadImage("raw and background images must have the same shape and spacing")
 
-    holo = (raw - df) / zero_filter(bg - df)
+    # pixel by pixel: the images may sit on different coordinates (a cropped
+    # hologram, another z), and arithmetic between labelled arrays would keep
+    # only the coordinates they share
+    holo = (raw - df.values) / zero_filter(bg - df.values).values
     holo = copy_metadata(raw, holo)
 
     if hasattr(holo, 'noise_sd') and hasattr(bg, 'noise_sd') and holo.noise_sd is None:
